@@ -5,6 +5,7 @@ import (
 	"fmt"
 	"math"
 	"math/big"
+	"os"
 	"reflect"
 	"sync"
 	"testing"
@@ -192,4 +193,12 @@ func TestReverseRegressions(t *testing.T) {
 			}
 		}
 	}
+}
+
+func triage(problem, canon string) bool {
+	if os.Getenv("VERIF_TRIAGE") != "" {
+		fmt.Printf("TRIAGE %s | %s\n", problem, canon)
+		return true
+	}
+	return false
 }
